@@ -68,12 +68,6 @@ Qed.
 (** peaks last-first, [e] = index just after the last peak *)
 Fixpoint total (R : list bt) : Z := match R with [] => 0 | T :: r => bt_size T + total r end.
 
-Fixpoint rpeaks_at (m : list (Z * entry)) (R : list bt) (e : Z) : Prop :=
-  match R with
-  | [] => True
-  | T :: rest => stored_at m (e - bt_size T) T /\ rpeaks_at m rest (e - bt_size T)
-  end.
-
 Fixpoint rlinks (R : list bt) (e : Z) : list link :=
   match R with [] => [] | T :: rest => Stored (e - 1) :: rlinks rest (e - bt_size T) end.
 
@@ -106,14 +100,6 @@ Proof. induction A; cbn [app total]; lia. Qed.
 Lemma total_nonneg R : 0 <= total R.
 Proof. induction R as [|T r]; cbn [total]; [lia|]. pose proof (bt_size_pos T). lia. Qed.
 
-Lemma rpeaks_at_app m A B e :
-  rpeaks_at m (A ++ B) e <-> rpeaks_at m A e /\ rpeaks_at m B (e - total A).
-Proof.
-  revert e. induction A as [|T A IH]; intros e; cbn [app rpeaks_at total].
-  - replace (e - 0) with e by lia. tauto.
-  - rewrite IH. replace (e - bt_size T - total A) with (e - (bt_size T + total A)) by lia. tauto.
-Qed.
-
 Lemma rlinks_app A B e : rlinks (A ++ B) e = rlinks A e ++ rlinks B (e - total A).
 Proof.
   revert e. induction A as [|T A IH]; intros e; cbn [app rlinks total].
@@ -123,17 +109,6 @@ Qed.
 
 Lemma rleaves_app A B : rleaves (A ++ B) = rleaves B ++ rleaves A.
 Proof. induction A; cbn [app rleaves]; [rewrite app_nil_r; reflexivity|]. rewrite IHA, app_assoc. reflexivity. Qed.
-
-Lemma rpeaks_at_ext m m' R : forall e,
-  (forall i, e - total R <= i < e -> lookup i m' = lookup i m) ->
-  rpeaks_at m R e -> rpeaks_at m' R e.
-Proof.
-  induction R as [|T R IH]; intros e E; cbn [rpeaks_at total] in *; [auto|].
-  pose proof (bt_size_pos T). pose proof (total_nonneg R).
-  intros [A B]. split.
-  - eapply stored_at_ext; [|exact A]. intros; apply E; lia.
-  - apply IH; auto. intros; apply E; lia.
-Qed.
 
 Lemma rbag_den_mono g x R : forall e lk, rbag_den g R e lk -> rbag_den (g ++ x) R e lk.
 Proof.
@@ -154,31 +129,6 @@ Proof.
   unfold resolve_link. intros P N.
   assert (Z.to_nat gi < length (t_gen t))%nat by (apply nth_error_Some; congruence).
   destruct (gi <? Z.of_nat (length (t_gen t))) eqn:E; [|lia]. rewrite N. reflexivity.
-Qed.
-
-Lemma resolve_peak t T e :
-  stored_at (t_stored t) (e - bt_size T) T ->
-  resolve_link t (Stored (e - 1)) = Ok (mkEntry (bt_kind (e - bt_size T) T) (bdata T)).
-Proof.
-  intros S. apply resolve_stored. apply stored_root in S.
-  replace (e - bt_size T + bt_size T - 1) with (e - 1) in S by lia. exact S.
-Qed.
-
-Lemma resolve_bag t R e lk :
-  rbag_den (t_gen t) R e lk -> rpeaks_at (t_stored t) R e ->
-  exists en, resolve_link t lk = Ok en /\ e_data en = rbagd R /\
-    match R with
-    | [T] => en = mkEntry (bt_kind (e - bt_size T) T) (bdata T)
-    | T :: _ :: _ => exists lk', e_kind en = Node lk' (Stored (e - 1)) /\
-                               rbag_den (t_gen t) (tl R) (e - bt_size T) lk'
-    | [] => False
-    end.
-Proof.
-  destruct R as [|T rest]; cbn [rbag_den rpeaks_at]; [tauto|].
-  destruct rest as [|T' rest'].
-  - intros -> [S _]. eexists. split; [apply resolve_peak; exact S|]. split; reflexivity.
-  - intros (gi & lk' & -> & P & N & D) _. eexists. split; [apply resolve_generated; eauto|].
-    split; [reflexivity|]. exists lk'. split; [reflexivity|exact D].
 Qed.
 
 (** * leaf counts *)
@@ -213,6 +163,129 @@ Proof.
     split; [auto|]. split; [auto|]. split.
     + rewrite C2, app_length, <- bt_nl_len. lia.
     + split; [|exact DL]. eapply dle_fits; [exact DL|]. destruct G as (_ & _ & _ & Z & _). exact Z.
+Qed.
+
+
+(** * Store predicates: what must be present in the stored map for a subtree.
+    [stored_at] (every node, the fully loaded tree) and [root_at] (only the root, a partial view)
+    are the two instances; the operation proofs are generic in [sat]. *)
+Definition root_at (m : list (Z * entry)) (o : Z) (T : bt) : Prop :=
+  lookup (o + bt_size T - 1) m = Some (mkEntry (bt_kind o T) (bdata T)).
+
+Record sat_ok (sat : list (Z * entry) -> Z -> bt -> Prop) : Prop := {
+  so_root : forall m o T, sat m o T -> root_at m o T;
+  so_ext : forall m m' T o, (forall i, o <= i < o + bt_size T -> lookup i m' = lookup i m) ->
+                            sat m o T -> sat m' o T;
+  so_leaf : forall m o d, lookup o m = Some (mkEntry Leaf d) -> sat m o (BL d);
+  so_node : forall m o l r, sat m o l -> sat m (o + bt_size l) r ->
+      lookup (o + bt_size l + bt_size r) m = Some (mkEntry (bt_kind o (BN l r)) (bdata (BN l r))) ->
+      sat m o (BN l r)
+}.
+
+Lemma stored_ok : sat_ok stored_at.
+Proof.
+  constructor.
+  - intros. apply stored_root. assumption.
+  - intros m m' T o E S. eapply stored_at_ext; eauto.
+  - intros. exact H0.
+  - intros. cbn [stored_at]. auto.
+Qed.
+
+Lemma root_ok : sat_ok root_at.
+Proof.
+  constructor; unfold root_at.
+  - auto.
+  - intros m m' T o E S. pose proof (bt_size_pos T). rewrite E; [exact S|lia].
+  - intros m o d E. cbn [bt_size bt_kind bt_data]. replace (o + 1 - 1) with o by lia. exact E.
+  - intros m o l r _ _ E. cbn [bt_size]. replace (o + (bt_size l + bt_size r + 1) - 1) with (o + bt_size l + bt_size r) by lia. exact E.
+Qed.
+
+Section Sat.
+Variable sat : list (Z * entry) -> Z -> bt -> Prop.
+Hypothesis SO : sat_ok sat.
+
+Lemma sat_ext m m' T : forall o,
+  (forall i, o <= i < o + bt_size T -> lookup i m' = lookup i m) -> sat m o T -> sat m' o T.
+Proof. intros o E S. eapply (so_ext sat SO); eauto. Qed.
+
+(** what [truncate_leaf] needs of the last peak: its right spine, and the left children hanging off it *)
+Fixpoint spine_at (m : list (Z * entry)) (o : Z) (T : bt) : Prop :=
+  match T with
+  | BL d => lookup o m = Some (mkEntry Leaf d)
+  | BN l r =>
+      sat m o l /\ spine_at m (o + bt_size l) r /\
+      lookup (o + bt_size l + bt_size r) m = Some (mkEntry (bt_kind o (BN l r)) (bdata (BN l r)))
+  end.
+
+Lemma spine_at_ext m m' T : forall o,
+  (forall i, o <= i < o + bt_size T -> lookup i m' = lookup i m) -> spine_at m o T -> spine_at m' o T.
+Proof.
+  induction T as [d|l IHl r IHr]; intros o E; cbn [spine_at bt_size] in *.
+  - intros X. rewrite E; [exact X|lia].
+  - pose proof (bt_size_pos l). pose proof (bt_size_pos r).
+    intros (A & B & C). split; [|split].
+    + eapply sat_ext; [|exact A]. intros; apply E; lia.
+    + apply IHr; auto. intros; apply E; lia.
+    + rewrite E; [exact C|lia].
+Qed.
+
+Fixpoint rpeaks_at (m : list (Z * entry)) (R : list bt) (e : Z) : Prop :=
+  match R with
+  | [] => True
+  | T :: rest => sat m (e - bt_size T) T /\ rpeaks_at m rest (e - bt_size T)
+  end.
+
+
+Lemma rpeaks_at_app m A B e :
+  rpeaks_at m (A ++ B) e <-> rpeaks_at m A e /\ rpeaks_at m B (e - total A).
+Proof.
+  revert e. induction A as [|T A IH]; intros e; cbn [app rpeaks_at total].
+  - replace (e - 0) with e by lia. tauto.
+  - rewrite IH. replace (e - bt_size T - total A) with (e - (bt_size T + total A)) by lia. tauto.
+Qed.
+
+Lemma rpeaks_at_ext m m' R : forall e,
+  (forall i, e - total R <= i < e -> lookup i m' = lookup i m) ->
+  rpeaks_at m R e -> rpeaks_at m' R e.
+Proof.
+  induction R as [|T R IH]; intros e E; cbn [rpeaks_at total] in *; [auto|].
+  pose proof (bt_size_pos T). pose proof (total_nonneg R).
+  intros [A B]. split.
+  - eapply sat_ext; [|exact A]. intros; apply E; lia.
+  - apply IH; auto. intros; apply E; lia.
+Qed.
+
+Lemma resolve_peak t T e :
+  sat (t_stored t) (e - bt_size T) T ->
+  resolve_link t (Stored (e - 1)) = Ok (mkEntry (bt_kind (e - bt_size T) T) (bdata T)).
+Proof.
+  intros S. apply resolve_stored. apply (so_root sat SO) in S. unfold root_at in S.
+  replace (e - bt_size T + bt_size T - 1) with (e - 1) in S by lia. exact S.
+Qed.
+
+Lemma resolve_bag t R e lk :
+  rbag_den (t_gen t) R e lk -> rpeaks_at (t_stored t) R e ->
+  exists en, resolve_link t lk = Ok en /\ e_data en = rbagd R /\
+    match R with
+    | [T] => en = mkEntry (bt_kind (e - bt_size T) T) (bdata T)
+    | T :: _ :: _ => exists lk', e_kind en = Node lk' (Stored (e - 1)) /\
+                               rbag_den (t_gen t) (tl R) (e - bt_size T) lk'
+    | [] => False
+    end.
+Proof.
+  destruct R as [|T rest]; cbn [rbag_den rpeaks_at]; [tauto|].
+  destruct rest as [|T' rest'].
+  - intros -> [S _]. eexists. split; [apply resolve_peak; exact S|]. split; reflexivity.
+  - intros (gi & lk' & -> & P & N & D) _. eexists. split; [apply resolve_generated; eauto|].
+    split; [reflexivity|]. exists lk'. split; [reflexivity|exact D].
+Qed.
+
+End Sat.
+
+Lemma stored_spine m T : forall o, stored_at m o T -> spine_at stored_at m o T.
+Proof.
+  induction T as [d|l IHl r IHr]; intros o; cbn [stored_at spine_at]; [auto|].
+  intros (A & B & C). auto.
 Qed.
 
 End S.
